@@ -41,7 +41,7 @@ type Tape struct {
 	S [NKinds]Stream
 }
 
-const streamCap = 1 << 18
+const streamCap = 1 << 21
 
 // NewTape returns an explore-mode tape seeded from seed.
 func NewTape(seed uint64) *Tape {
